@@ -508,7 +508,7 @@ impl Engine for CompSim {
     fn runs(&self, tier: Tier) -> u64 {
         match tier {
             Tier::Quick => 40_000,
-            Tier::Thorough => 8_000_000,
+            Tier::Thorough => 12_000_000,
         }
     }
     fn heartbeat(&self) -> u64 {
